@@ -421,4 +421,326 @@ def mirrorRepeat (x : UInt32) : UInt32 :=
   let mirror := fadd clamp_ rest
   mixb rest (fsub fOne rest) (ge mirror fOne)
 
+/-! ## §7 the same on binary64 bit patterns (`UInt64`)
+
+glm's templates are instantiated at `double` by the harness too; the model is the §1–§6 text with
+the binary64 field widths (11-bit exponent, bias 1023, 52 fraction bits). -/
+namespace D
+
+@[inline] def mag (x : UInt64) : UInt64 := x &&& 0x7FFFFFFFFFFFFFFF
+@[inline] def isNaN (x : UInt64) : Bool := decide (mag x > 0x7FF0000000000000)
+@[inline] def isInf (x : UInt64) : Bool := mag x == 0x7FF0000000000000
+@[inline] def isFinite (x : UInt64) : Bool := decide (mag x < 0x7FF0000000000000)
+@[inline] def isZero (x : UInt64) : Bool := mag x == 0
+@[inline] def signBit (x : UInt64) : Bool := (x >>> 63) == 1
+@[inline] def neg (x : UInt64) : UInt64 := x ^^^ 0x8000000000000000
+@[inline] def key (x : UInt64) : UInt64 :=
+  if signBit x then 0x8000000000000000 - mag x else 0x8000000000000000 + mag x
+@[inline] def lt (x y : UInt64) : Bool := !isNaN x && !isNaN y && decide (key x < key y)
+@[inline] def le (x y : UInt64) : Bool := !isNaN x && !isNaN y && decide (key x ≤ key y)
+@[inline] def feq (x y : UInt64) : Bool := !isNaN x && !isNaN y && key x == key y
+@[inline] def gt (x y : UInt64) : Bool := lt y x
+@[inline] def ge (x y : UInt64) : Bool := le y x
+@[inline] def same (x y : UInt64) : Bool := x == y || (isNaN x && isNaN y)
+
+def fZero : UInt64 := 0x0000000000000000
+def fOne : UInt64 := 0x3FF0000000000000
+def fNegOne : UInt64 := 0xBFF0000000000000
+def fHalf : UInt64 := 0x3FE0000000000000
+def fTwo : UInt64 := 0x4000000000000000
+def fNaN : UInt64 := 0x7FF8000000000000
+
+@[inline] def min (x y : UInt64) : UInt64 := if lt y x then y else x
+@[inline] def max (x y : UInt64) : UInt64 := if lt x y then y else x
+@[inline] def clamp (x lo hi : UInt64) : UInt64 := min (max x lo) hi
+@[inline] def mixb (x y : UInt64) (a : Bool) : UInt64 := if a then y else x
+@[inline] def step (edge x : UInt64) : UInt64 := mixb fOne fZero (lt x edge)
+@[inline] def abs (x : UInt64) : UInt64 := if ge x fZero then x else neg x
+@[inline] def sub01 (a b : Bool) : UInt64 :=
+  if a then (if b then fZero else fOne) else (if b then fNegOne else fZero)
+@[inline] def sign (x : UInt64) : UInt64 := sub01 (lt fZero x) (lt x fZero)
+@[inline] def min3 (a b c : UInt64) : UInt64 := min (min a b) c
+@[inline] def min4 (a b c d : UInt64) : UInt64 := min (min a b) (min c d)
+@[inline] def max3 (a b c : UInt64) : UInt64 := max (max a b) c
+@[inline] def max4 (a b c d : UInt64) : UInt64 := max (max a b) (max c d)
+@[inline] def fmin2 (a b : UInt64) : UInt64 :=
+  if isNaN a then b else if isNaN b then a else if lt b a then b else a
+@[inline] def fmax2 (a b : UInt64) : UInt64 :=
+  if isNaN a then b else if isNaN b then a else if lt a b then b else a
+@[inline] def fmin3 (a b c : UInt64) : UInt64 :=
+  if isNaN a then fmin2 b c
+  else if isNaN b then fmin2 a c
+  else if isNaN c then min a b
+  else min3 a b c
+@[inline] def fmin4 (a b c d : UInt64) : UInt64 :=
+  if isNaN a then fmin3 b c d
+  else if isNaN b then min a (fmin2 c d)
+  else if isNaN c then fmin2 (min a b) d
+  else if isNaN d then min3 a b c
+  else min4 a b c d
+@[inline] def fmax3 (a b c : UInt64) : UInt64 :=
+  if isNaN a then fmax2 b c
+  else if isNaN b then fmax2 a c
+  else if isNaN c then max a b
+  else max3 a b c
+@[inline] def fmax4 (a b c d : UInt64) : UInt64 :=
+  if isNaN a then fmax3 b c d
+  else if isNaN b then max a (fmax2 c d)
+  else if isNaN c then fmax2 (max a b) d
+  else if isNaN d then max3 a b c
+  else max4 a b c d
+@[inline] def fclamp (x lo hi : UInt64) : UInt64 := fmin2 (fmax2 x lo) hi
+@[inline] def vfmin3 (a b c : UInt64) : UInt64 := fmin2 (fmin2 a b) c
+@[inline] def vfmin4 (a b c d : UInt64) : UInt64 := fmin2 (fmin2 a b) (fmin2 c d)
+@[inline] def vfmax3 (a b c : UInt64) : UInt64 := fmax2 (fmax2 a b) c
+@[inline] def vfmax4 (a b c d : UInt64) : UInt64 := fmax2 (fmax2 a b) (fmax2 c d)
+
+@[inline] def isMinOf2 (r x y : UInt64) : Bool := le r x && le r y && (feq r x || feq r y)
+@[inline] def isMaxOf2 (r x y : UInt64) : Bool := le x r && le y r && (feq r x || feq r y)
+@[inline] def isMinOf3 (r a b c : UInt64) : Bool := le r a && le r b && le r c && (feq r a || feq r b || feq r c)
+@[inline] def isMaxOf3 (r a b c : UInt64) : Bool := le a r && le b r && le c r && (feq r a || feq r b || feq r c)
+@[inline] def isMinOf4 (r a b c d : UInt64) : Bool :=
+  le r a && le r b && le r c && le r d && (feq r a || feq r b || feq r c || feq r d)
+@[inline] def isMaxOf4 (r a b c d : UInt64) : Bool :=
+  le a r && le b r && le c r && le d r && (feq r a || feq r b || feq r c || feq r d)
+@[inline] def isClampOf (r x lo hi : UInt64) : Bool :=
+  if lt x lo then feq r lo else if lt hi x then feq r hi else feq r x
+
+@[inline] def expo (x : UInt64) : UInt64 := (x >>> 52) &&& 0x7FF
+@[inline] def sig (x : UInt64) : UInt64 :=
+  if expo x == 0 then x &&& 0xFFFFFFFFFFFFF else (x &&& 0xFFFFFFFFFFFFF) ||| 0x10000000000000
+@[inline] def eff (x : UInt64) : UInt64 := if expo x == 0 then 1 else expo x
+
+/-- left shifts that bring bit 55 of a non-zero 56-bit value to the top -/
+@[inline] def clz56 (s : UInt64) : UInt64 :=
+  let n0 : UInt64 := 0
+  let c5 := (s >>> 24) == 0
+  let s := if c5 then s <<< 32 else s
+  let n0 := if c5 then n0 + 32 else n0
+  let c4 := (s >>> 40) == 0
+  let s := if c4 then s <<< 16 else s
+  let n0 := if c4 then n0 + 16 else n0
+  let c3 := (s >>> 48) == 0
+  let s := if c3 then s <<< 8 else s
+  let n0 := if c3 then n0 + 8 else n0
+  let c2 := (s >>> 52) == 0
+  let s := if c2 then s <<< 4 else s
+  let n0 := if c2 then n0 + 4 else n0
+  let c1 := (s >>> 54) == 0
+  let s := if c1 then s <<< 2 else s
+  let n0 := if c1 then n0 + 2 else n0
+  let c0 := (s >>> 55) == 0
+  if c0 then n0 + 1 else n0
+
+@[inline] def roundPack (sgn e s : UInt64) : UInt64 :=
+  let r := s &&& 7
+  let q := s >>> 3
+  let up := decide (r > 4) || (r == 4 && (q &&& 1) == 1)
+  let bits := ((e - 1) <<< 52) + q + (if up then 1 else 0)
+  if decide (bits ≥ 0x7FF0000000000000) then sgn ||| 0x7FF0000000000000 else sgn ||| bits
+
+def fadd (a b : UInt64) : UInt64 :=
+  if isNaN a || isNaN b then fNaN
+  else if isInf a then (if isInf b && !(a == b) then fNaN else a)
+  else if isInf b then b
+  else
+    let swap := decide (mag a < mag b)
+    let x := if swap then b else a
+    let y := if swap then a else b
+    let sx := x &&& 0x8000000000000000
+    let ex := eff x
+    let ey := eff y
+    let d := ex - ey
+    let bigX := sig x <<< 3
+    let y0 := sig y <<< 3
+    let dd := if decide (d > 63) then 63 else d
+    let ysh := y0 >>> dd
+    let bigY := if (ysh <<< dd) == y0 then ysh else ysh ||| 1
+    if (x ^^^ y) >>> 63 == 0 then
+      let s := bigX + bigY
+      let carry := decide (s ≥ 0x100000000000000)
+      let s1 := if carry then (s >>> 1) ||| (s &&& 1) else s
+      let e1 := if carry then ex + 1 else ex
+      roundPack sx e1 s1
+    else
+      let s := bigX - bigY
+      if s == 0 then 0
+      else
+        let n := clz56 s
+        let sh := if decide (n < ex - 1) then n else ex - 1
+        roundPack sx (ex - sh) (s <<< sh)
+@[inline] def fsub (a b : UInt64) : UInt64 := fadd a (neg b)
+
+def fmul2 (x : UInt64) : UInt64 :=
+  if isNaN x then fNaN
+  else if isInf x || isZero x then x
+  else if expo x == 0 then (x &&& 0x8000000000000000) ||| ((x &&& 0xFFFFFFFFFFFFF) <<< (1 : UInt64))
+  else if expo x == 2046 then (x &&& 0x8000000000000000) ||| 0x7FF0000000000000
+  else x + 0x10000000000000
+def fdiv2 (x : UInt64) : UInt64 :=
+  if isNaN x then fNaN
+  else if isInf x || isZero x then x
+  else if decide (expo x > 1) then x - 0x10000000000000
+  else
+    let m := sig x
+    let q := m >>> 1
+    let up := (m &&& 1) == 1 && (q &&& 1) == 1
+    (x &&& 0x8000000000000000) ||| (q + (if up then 1 else 0))
+
+/-- `static_cast<int>(double)` (x86 `cvttsd2si` outside the defined range) -/
+def f2i (x : UInt64) : Int32 :=
+  let e := expo x
+  if decide (e < 1023) then 0
+  else if decide (e ≥ 1054) then (0x80000000 : UInt32).toInt32
+  else
+    let v := (sig x >>> (1075 - e)).toUInt32
+    if signBit x then (0 - v).toInt32 else v.toInt32
+@[inline] def f2iDefined (x : UInt64) : Bool :=
+  decide (expo x < 1054) || (signBit x && expo x == 1054 && ((x &&& 0xFFFFFFFFFFFFF) >>> 21) == 0)
+/-- `static_cast<unsigned>(double)`, defined for `-1 < x < 2^32` -/
+def f2u (x : UInt64) : UInt32 :=
+  let e := expo x
+  if decide (e < 1023) then 0
+  else if decide (e ≥ 1055) then 0
+  else
+    let v := (sig x >>> (1075 - e)).toUInt32
+    if signBit x then 0 - v else v
+@[inline] def f2uDefined (x : UInt64) : Bool := decide (expo x < 1023) || (!signBit x && decide (expo x < 1055))
+
+@[inline] def fracMask (x : UInt64) : UInt64 := 0xFFFFFFFFFFFFF >>> (expo x - 1023)
+def truncS (x : UInt64) : UInt64 :=
+  if isNaN x then fNaN
+  else if decide (expo x < 1023) then x &&& 0x8000000000000000
+  else if decide (expo x ≥ 1075) then x
+  else x &&& ~~~ fracMask x
+def floorS (x : UInt64) : UInt64 :=
+  if isNaN x then fNaN
+  else if decide (expo x < 1023) then
+    (if isZero x then x else if signBit x then fNegOne else fZero)
+  else if decide (expo x ≥ 1075) then x
+  else if signBit x && !((x &&& fracMask x) == 0) then (x + fracMask x) &&& ~~~ fracMask x
+  else x &&& ~~~ fracMask x
+def ceilS (x : UInt64) : UInt64 :=
+  if isNaN x then fNaN
+  else if decide (expo x < 1023) then
+    (if isZero x then x else if signBit x then 0x8000000000000000 else fOne)
+  else if decide (expo x ≥ 1075) then x
+  else if !signBit x && !((x &&& fracMask x) == 0) then (x + fracMask x) &&& ~~~ fracMask x
+  else x &&& ~~~ fracMask x
+def roundS (x : UInt64) : UInt64 :=
+  if isNaN x then fNaN
+  else if decide (expo x < 1022) then x &&& 0x8000000000000000
+  else if expo x == 1022 then (x &&& 0x8000000000000000) ||| fOne
+  else if decide (expo x ≥ 1075) then x
+  else (x + (0x8000000000000 >>> (expo x - 1023))) &&& ~~~ fracMask x
+def rintS (x : UInt64) : UInt64 :=
+  if isNaN x then fNaN
+  else if decide (expo x < 1022) then x &&& 0x8000000000000000
+  else if expo x == 1022 then
+    (if (x &&& 0xFFFFFFFFFFFFF) == 0 then x &&& 0x8000000000000000 else (x &&& 0x8000000000000000) ||| fOne)
+  else if decide (expo x ≥ 1075) then x
+  else
+    let k := expo x - 1023
+    let mask := fracMask x
+    let half := 0x8000000000000 >>> k
+    let frac := x &&& mask
+    let t := x &&& ~~~ mask
+    let odd := if k == 0 then true else ((x >>> (52 - k)) &&& 1) == 1
+    if decide (frac > half) || (frac == half && odd) then t + (mask + 1) else t
+def isInt (x : UInt64) : Bool :=
+  isFinite x && (isZero x || decide (expo x ≥ 1075) ||
+    (decide (expo x ≥ 1023) && (x &&& fracMask x) == 0))
+def isEvenInt (x : UInt64) : Bool :=
+  isFinite x && (isZero x || decide (expo x ≥ 1076) ||
+    (decide (expo x ≥ 1024) && (x &&& (0x1FFFFFFFFFFFFF >>> (expo x - 1023))) == 0))
+
+@[inline] def fract (x : UInt64) : UInt64 := fsub x (floorS x)
+@[inline] def fmod2IsZero (t : UInt64) : Bool := isEvenInt t
+def roundEven (x : UInt64) : UInt64 :=
+  let integerPart := truncS x
+  let fractionalPart := fract x
+  if gt fractionalPart fHalf || lt fractionalPart fHalf then roundS x
+  else if fmod2IsZero integerPart then integerPart
+  else if le x fZero then fsub integerPart fOne
+  else fadd integerPart fOne
+@[inline] def iround (x : UInt64) : Int32 := f2i (roundS x)
+@[inline] def uround (x : UInt64) : UInt32 := f2u (roundS x)
+@[inline] def wrapClamp (x : UInt64) : UInt64 := clamp x fZero fOne
+@[inline] def wrapRepeat (x : UInt64) : UInt64 := fract x
+@[inline] def mirrorClamp (x : UInt64) : UInt64 := fract (abs x)
+@[inline] def mod2 (a : UInt64) : UInt64 := fsub a (fmul2 (floorS (fdiv2 a)))
+def mirrorRepeat (x : UInt64) : UInt64 :=
+  let abs_ := abs x
+  let clamp_ := mod2 (floorS abs_)
+  let floor_ := floorS abs_
+  let rest := fsub abs_ floor_
+  let mirror := fadd clamp_ rest
+  mixb rest (fsub fOne rest) (ge mirror fOne)
+
+end D
+
+/-! ## §9 correctly rounded constants: exact rational arithmetic
+
+`glm::pi<T>()` etc. return `genType(<decimal literal>)`: the literal is a `double` literal, i.e. the
+compiler rounds the decimal to binary64 (round-to-nearest-even) and, for `T = float`, the cast
+rounds that double to binary32 — two roundings.  `Rounds p m e q` says "q lies strictly inside the
+rounding interval of the precision-`p` number `m·2^e`" (so round-to-nearest of `q` is `m·2^e`,
+whatever the tie rule); the checkers compute `m, e` from the literal and test the literal and
+both ends of a rational enclosure `[lo, hi]` of the named real quantity.  That the enclosure
+contains the real number is proved in `Props/C11/Consts.lean` (Mathlib). -/
+namespace Const
+
+def pow2 (e : Int) : Rat :=
+  if e ≥ 0 then ((2 ^ e.toNat : Nat) : Rat) else 1 / ((2 ^ (-e).toNat : Nat) : Rat)
+
+/-- ⌊log2 q⌋ for q > 0 -/
+def ilog2 (q : Rat) : Int :=
+  let k : Int := (Nat.log2 q.num.toNat : Int) - (Nat.log2 q.den : Int)
+  if pow2 (k + 1) ≤ q then k + 1 else if pow2 k ≤ q then k else k - 1
+
+/-- round to nearest integer, ties to even -/
+def rne (q : Rat) : Int :=
+  let f := q.floor
+  let r := q - f
+  if r < 1/2 then f else if r > 1/2 then f + 1 else if f % 2 == 0 then f else f + 1
+
+/-- exponent and significand of the precision-`p` neighbour of q > 0 (unbounded exponent) -/
+def nearE (p : Nat) (q : Rat) : Int := ilog2 q - ((p : Int) - 1)
+def nearM (p : Nat) (q : Rat) : Int := rne (q / pow2 (nearE p q))
+def value (m e : Int) : Rat := (m : Rat) * pow2 e
+
+/-- `q` is strictly inside the round-to-nearest interval of the normalised precision-`p` number
+`m·2^e` (`m` is not a power of two, so the interval is symmetric) -/
+def Rounds (p : Nat) (m e : Int) (q : Rat) : Prop :=
+  (2 : Int) ^ (p - 1) < m ∧ m < (2 : Int) ^ p ∧
+  ((m : Rat) - 1/2) * pow2 e < q ∧ q < ((m : Rat) + 1/2) * pow2 e
+instance (p : Nat) (m e : Int) (q : Rat) : Decidable (Rounds p m e q) := by
+  unfold Rounds; infer_instance
+
+/-- literal `L` and every real in `[lo, hi]` round to the same normal binary64 number -/
+def chk64 (L lo hi : Rat) : Bool :=
+  let m := nearM 53 L
+  let e := nearE 53 L
+  decide (Rounds 53 m e L ∧ Rounds 53 m e lo ∧ Rounds 53 m e hi ∧ -1074 ≤ e ∧ e ≤ 971)
+
+/-- `float(double(L))` is the binary32 number every real in `[lo, hi]` rounds to -/
+def chk32 (L lo hi : Rat) : Bool :=
+  let m := nearM 53 L
+  let e := nearE 53 L
+  let d := value m e
+  let m' := nearM 24 d
+  let e' := nearE 24 d
+  decide (Rounds 53 m e L ∧ -1074 ≤ e ∧ e ≤ 971 ∧
+          Rounds 24 m' e' d ∧ Rounds 24 m' e' lo ∧ Rounds 24 m' e' hi ∧ -149 ≤ e' ∧ e' ≤ 104)
+
+/-- the bits the harness must see: binary64 pattern of a positive normal `m·2^e` -/
+def bits64 (m e : Int) : Nat := ((e + 52 + 1023).toNat <<< 52) + (m.toNat - 2 ^ 52)
+def bits32 (m e : Int) : Nat := ((e + 23 + 127).toNat <<< 23) + (m.toNat - 2 ^ 23)
+def litBits64 (L : Rat) : Nat := bits64 (nearM 53 L) (nearE 53 L)
+def litBits32 (L : Rat) : Nat :=
+  let d := value (nearM 53 L) (nearE 53 L)
+  bits32 (nearM 24 d) (nearE 24 d)
+
+end Const
+
 end GlmVerif.C11
